@@ -20,6 +20,8 @@ def tier_count(tier, quick, thorough):
 def native_c09(tier, seed):
     n = tier_count(tier, 150, 4000)
     r = native_python('c09_kcl.py', ['sweep', str(seed), str(n)], timeout=3000)
+    for v in r['violations']:
+        v['script'] = 'c09_kcl.py'
     return {'violations': r['violations'],
             'bounded': [{'what': 'KCL / E-line / J-total on the real report of generated junction topologies '
                                  '(free space and ideal ground, 2..5 wires, 1..5 segments)',
@@ -31,6 +33,8 @@ def native_sweep(script, what, quick, thorough):
     def f(tier, seed):
         n = tier_count(tier, quick, thorough)
         r = native_python(script, ['sweep', str(seed), str(n)], timeout=6000)
+        for v in r['violations']:
+            v['script'] = script
         return {'violations': r['violations'],
                 'bounded': [{'what': what, 'bound': '%d generated cases (seed %d)' % (r['cases'], seed),
                              'cases': r['cases'], 'nontrivial': r.get('nontrivial'),
